@@ -53,15 +53,15 @@ fn oracle(c: &Case, acc: &mut Acc) -> CaseResult {
     let mut earlier: Vec<Vec<u8>> = Vec::new();
     for k in 0..c.idx {
         let (w, r) = if k % 2 == 0 { (&mut pair.i, &mut pair.r) } else { (&mut pair.r, &mut pair.i) };
-        let m = hs_write(w, &spec.payload(k, c.plen), 65535 + 16).map_err(|x| Fail::new(format!("{name}: prefix write {k}: {}", e(&x))))?;
-        hs_read(r, &m, 65535).map_err(|x| Fail::new(format!("{name}: prefix read {k}: {}", e(&x))))?;
+        let m = hs_write(w, &spec.payload(k, c.plen), 65535 + 16).map_err(|x| Fail::setup(format!("{name}: prefix write {k}: {}", e(&x))))?;
+        hs_read(r, &m, 65535).map_err(|x| Fail::setup(format!("{name}: prefix read {k}: {}", e(&x))))?;
         earlier.push(m);
     }
     let i_sends = c.idx % 2 == 0;
     let payload = spec.payload(c.idx, c.plen);
     let genuine = {
         let w = if i_sends { &mut pair.i } else { &mut pair.r };
-        hs_write(w, &payload, 65535 + 16).map_err(|x| Fail::new(format!("{name}: write {}: {}", c.idx, e(&x))))?
+        hs_write(w, &payload, 65535 + 16).map_err(|x| Fail::setup(format!("{name}: write {}: {}", c.idx, e(&x))))?
     };
     let parallel = |same_statics: bool| -> Result<Vec<u8>, Fail> {
         let mut other = spec.clone();
@@ -70,12 +70,12 @@ fn oracle(c: &Case, acc: &mut Acc) -> CaseResult {
             other.eph = EphMode::Fixed;
             let mut p = drive_with_ephemerals(&other, c.idx, mix(spec.key_seed, 0xE0E0), c.plen)?;
             let w = if i_sends { &mut p.i } else { &mut p.r };
-            hs_write(w, &payload, 65535 + 16).map_err(|x| Fail::new(format!("parallel write: {}", e(&x))))
+            hs_write(w, &payload, 65535 + 16).map_err(|x| Fail::setup(format!("parallel write: {}", e(&x))))
         } else {
             other.key_seed = mix(spec.key_seed, 0xA1A1);
             let mut p = drive_to(&other, c.idx)?;
             let w = if i_sends { &mut p.i } else { &mut p.r };
-            hs_write(w, &other.payload(c.idx, c.plen), 65535 + 16).map_err(|x| Fail::new(format!("parallel write: {}", e(&x))))
+            hs_write(w, &other.payload(c.idx, c.plen), 65535 + 16).map_err(|x| Fail::setup(format!("parallel write: {}", e(&x))))
         }
     };
     let altered: Vec<u8> = match &c.alt {
@@ -191,13 +191,13 @@ fn drive_with_ephemerals(spec: &SessionSpec, idx: usize, eseed: u64, plen: usize
     s2.eph = EphMode::Rng;
     let rng_i = SharedRng::seeded(eseed, p256);
     let rng_r = SharedRng::seeded(eseed ^ 1, p256);
-    let i = build_snow(&s2, true, &EpOverrides::default(), &Instr { rng: Some(rng_i.clone()), log: None }).map_err(|x| Fail::new(e(&x)))?;
-    let r = build_snow(&s2, false, &EpOverrides::default(), &Instr { rng: Some(rng_r.clone()), log: None }).map_err(|x| Fail::new(e(&x)))?;
+    let i = build_snow(&s2, true, &EpOverrides::default(), &Instr { rng: Some(rng_i.clone()), log: None }).map_err(|x| Fail::setup(e(&x)))?;
+    let r = build_snow(&s2, false, &EpOverrides::default(), &Instr { rng: Some(rng_r.clone()), log: None }).map_err(|x| Fail::setup(e(&x)))?;
     let mut pair = Pair { i, r, rng_i, rng_r };
     for k in 0..idx {
         let (w, r) = if k % 2 == 0 { (&mut pair.i, &mut pair.r) } else { (&mut pair.r, &mut pair.i) };
-        let m = hs_write(w, &spec.payload(k, plen), 65535 + 16).map_err(|x| Fail::new(format!("parallel prefix write {k}: {}", e(&x))))?;
-        hs_read(r, &m, 65535).map_err(|x| Fail::new(format!("parallel prefix read {k}: {}", e(&x))))?;
+        let m = hs_write(w, &spec.payload(k, plen), 65535 + 16).map_err(|x| Fail::setup(format!("parallel prefix write {k}: {}", e(&x))))?;
+        hs_read(r, &m, 65535).map_err(|x| Fail::setup(format!("parallel prefix read {k}: {}", e(&x))))?;
     }
     Ok(pair)
 }
